@@ -134,6 +134,9 @@ def run(v, tier, seed):
         cases.sort(key=lambda c: json.dumps(c, sort_keys=True))
         for i, c in enumerate(cases): c["id"] = i
         f_oq = [ex.submit(oq_replay, cases[k::nshard], k) for k in range(nshard)]
+        # self-test: a case whose expected end queue was corrupted must be reported (as drift) by the harness
+        bad = json.loads(json.dumps(next(x for x in cases if len(x["q0"]) == 2 and x["q"] == x["q0"]))); bad["q"] = bad["q"][:1]
+        f_bad = ex.submit(oq_replay, [bad], "selftest", True)
         if not f_f1.result(): raise vlib.MachineryError("vacuity guard: OutQueue with the deviation F1 does not violate Terminates")
         oq = {"cases": 0, "followed": 0, "drifted": 0, "messages_queued": 0, "messages_arrived": 0, "pumps": 0}; slow = 0
         for f in f_oq:
@@ -141,6 +144,7 @@ def run(v, tier, seed):
             if s:
                 for k in oq: oq[k] += s.get(k, 0)
                 slow = max(slow, s.get("slowest_pump_us", 0))
+        if not any(x.get("drift") for x in f_bad.result()["rows"]): raise vlib.MachineryError("self-test: an OutQueue case with a corrupted expected queue was not reported by the harness")
         hs = {"injected": 0, "servers": 0, "pings_answered": 0, "senders_lost": 0, "pumps": 0}; backlog = 0
         for f in f_host:
             s = judge(f.result(), "hostile Message")
